@@ -135,7 +135,8 @@ def positions_through_rules():
             ("statement", "PRINT@1,ABC$", ["AB$"]), ("statement", "PRINT ABC,ABC$,XYZ$", ["AB", "AB$", "XY$"]), ("statement", "PRINT NAME$", ["NA$"]),
             ("statement", 'IF ABC$="X" THEN 10', ["AB$"]), ("statement", "XYZ=LEN(ABC$)", ["XY", "AB$"]), ("statement", "XYZ$=ABC$+LEFT$(ABC$,ABC)", ["XY$", "AB$", "AB$", "AB"]),
             ("statement", "XYZ=ABC(ABC)+ABC", ["XY", "arr_AB", "AB", "AB"]), ("statement", "INPUT ABC$,ABC,ABC$(1)", ["AB$", "AB", "arr_AB$"]),
-            ("statement", "READ ABC$,ABC(2)", ["AB$", "arr_AB"]), ("statement", "LINE INPUT ABC$", ["AB$"]), ("statement", "HPRINT(1,2),ABC$", ["AB$"]),
+            ("statement", "READ ABC$,ABC(2)", ["AB$", "arr_AB"]), ("last_statement", 'ABC$(3)="ELEMENT', ["arr_AB$"]), ("last_statement", 'LET ABC$(1,2)="X Y', ["arr_AB$"]),
+            ("last_statement", 'ABC$="ELEMENT', ["AB$"]), ("statement", 'ABC$(3)="E"', ["arr_AB$"]), ("statement", "LINE INPUT ABC$", ["AB$"]), ("statement", "HPRINT(1,2),ABC$", ["AB$"]),
         ]
         for rule, src, idents in more:
             try:
@@ -279,6 +280,12 @@ def kinds_in_declarations():
     return guarded("kinds-in-declarations", run)
 
 
+def next_names():
+    # a bare NEXT is given the variable of the loop it closes: the identifier written must be that loop's variable (shared with C02)
+    from tx import p_c02
+    return [dict(o, id="next/" + o["id"]) for o in p_c02.next_patcher()]
+
+
 def config_names_c09():
     # a name in the string-size configuration denotes the same identifier as that name in the program (shared with C10)
     from tx.p_c10 import config_names
@@ -286,4 +293,4 @@ def config_names_c09():
 
 
 def obligations():
-    return truncation() + kinds_disjoint() + generated_identifiers() + variable_positions() + positions_through_rules() + reserved_values() + initializer_skips_generated() + config_names_c09() + kinds_in_declarations()
+    return truncation() + kinds_disjoint() + generated_identifiers() + variable_positions() + positions_through_rules() + reserved_values() + initializer_skips_generated() + config_names_c09() + kinds_in_declarations() + next_names()
